@@ -213,6 +213,35 @@ def solo_conformance(op, pr, pre_tree, rep):
 HASHCODES = None
 
 
+def write_error_section(rng, res, count):
+    """C10: the hub's file system refuses to take all the bytes of a Put (a file-size limit: every write beyond 64 KiB fails,
+    as on a full disk or over quota). Whatever the server then does, every visible path holds initial content or the COMPLETE
+    verified bytes of one Put — a write error swallowed on the way (a buffered tail never flushed) must not be committed."""
+    for which in ("replace", "create", "both-small-buffers"):
+        old = bytes(rng.bytes(90_000)); new = bytes(rng.bytes(100_003)); fresh = bytes(rng.bytes(70_000 if which != "both-small-buffers" else 66_000))
+        tree = {"big.bin": old, "keep.txt": b"kept"}
+        hn, hf_, ho = (bytes.fromhex(x) for x in blake3_hex([new, fresh, old]))
+        stream = H.MAGIC + H.frame(H.req_hello())
+        if which != "create":
+            stream += H.frame(H.req_put("big.bin", ho, len(new), hn)) + new
+        if which != "replace":
+            stream += H.frame(H.req_put("fresh.bin", None, len(fresh), hf_)) + fresh
+        stream += H.frame(H.req_get("keep.txt")) + H.frame(H.req_bye())
+        with Sandbox("C10") as sb:
+            root = sb.path("hub"); sb.write_tree(root, tree); os.makedirs(os.path.join(root, ".copia"), exist_ok=True)
+            rc, out, err = H.run_server(sb, root, stream, pre_extra="trap '' XFSZ; ulimit -f 64; ")
+            after = nonstaging(H.hub_tree(root))
+        count("write-error/file-size-limit")
+        allowed = {old, new, fresh, b"kept"}
+        rep = {"kind": which, "rc": rc, "stderr": err[-300:], "replies": parse_replies(out)[:5], "after": {k: len(v) for k, v in after.items()}}
+        for p_, c_ in after.items():
+            if c_ not in allowed:
+                res["violations"].append(("partial-or-mixed-content-visible", f"with writes failing beyond 64 KiB, hub path {p_} holds {len(c_)} bytes that are neither initial content nor the complete bytes of a Put", rep))
+        acked = [t for t in parse_replies(out) if t.startswith("put:1")]
+        if acked and (after.get("big.bin") not in (old, new) or (which != "replace" and "put:1" in "".join(acked[-1:]) and after.get("fresh.bin") not in (None, fresh))):
+            res["violations"].append(("acknowledged-put-not-stored", "a Put was acknowledged as committed although its bytes are not what the path holds", rep))
+
+
 def run(pid, tier, seed, rundir, model_run):
     rng = Rng(seed ^ (0xC03 if pid == "C03" else 0xC10))
     res = {"violations": [], "broken": [], "notes": [], "distribution": {}, "samples": []}
@@ -221,6 +250,8 @@ def run(pid, tier, seed, rundir, model_run):
     def count(k, c=1):
         dist[k] = dist.get(k, 0) + c
 
+    if pid == "C10":
+        write_error_section(rng, res, count)
     ncases = 70 * (12 if tier == "thorough" else 1)
     global HASHCODES
     HASHCODES = HashCodes()
